@@ -48,7 +48,8 @@ def pool(t):
     if gen.is_list(t):
         p = pool(t[1])
         q = lambda i: p[i % len(p)]
-        return [[], [q(0)], [q(1), q(2)], [q(2), q(1), q(0)], [q(i) for i in range(5)]]
+        # among them lists of one length that differ only in their last, only in their first element
+        return [[], [q(0)], [q(1), q(2)], [q(2), q(1), q(0)], [q(2), q(1), q(3)], [q(4), q(1), q(0)], [q(i) for i in range(5)], [q(i) for i in range(4)] + [q(6)]]
     raise ValueError(t)
 
 
@@ -173,6 +174,15 @@ def operand_tuples(op, ts, rng, k):
     if total <= k:
         return list(itertools.product(*pools))
     seen, out = set(), []
+    if op in ("eq", "ne") and gen.is_list(ts[0]):
+        # equality of lists is decided by the elements: every pair of different lists of one length (they differ in the
+        # first, in a middle or only in the last element), in both orders, whatever k is
+        for x in pools[0]:
+            for y in pools[1]:
+                if len(x) == len(y) and x != y:
+                    seen.add(repr((x, y)))
+                    out.append((x, y))
+        k += len(out)
     # always the "diagonal" extremes first
     for j in range(min(k // 2, max(len(p) for p in pools))):
         tup = tuple(p[(len(p) - 1 - j) % len(p)] for p in pools)
